@@ -21,6 +21,7 @@ import (
 	"strconv"
 	"strings"
 	"sync"
+	"sync/atomic"
 	"testing"
 	"time"
 )
@@ -542,7 +543,7 @@ func EnableYield(r *Rand) {
 	yieldMu.Lock()
 	yieldR = r
 	yieldLog = yieldLog[:0]
-	yieldOn = 1
+	atomic.StoreInt32(&yieldOn, 1)
 	yieldMu.Unlock()
 }
 
@@ -550,12 +551,15 @@ func EnableYield(r *Rand) {
 func DisableYield() string {
 	yieldMu.Lock()
 	defer yieldMu.Unlock()
-	yieldOn = 0
+	atomic.StoreInt32(&yieldOn, 0)
 	s := strconv.FormatUint(hashStr(strings.Join(yieldLog, ",")), 36)
 	return s
 }
 
 func Yield(point string) {
+	if atomic.LoadInt32(&yieldOn) == 0 {
+		return
+	}
 	yieldMu.Lock()
 	if yieldOn == 0 {
 		yieldMu.Unlock()
